@@ -13,71 +13,107 @@ from __future__ import annotations
 import sys
 
 
+def _steps(b, n):
+    """Each step is independent and returns plain values; an exception is part of the result, so that a
+    change in /repo that makes repo code raise shows up identically on both sides (models vs real builtins)."""
+    ba = bytearray(8)
+    mv = memoryview(ba)
+
+    def s1():
+        out = [(len(mv), mv.nbytes, mv.readonly)]
+        mv[:3] = b[:3]
+        sub = mv[2:]
+        out.append((len(sub), sub.nbytes))
+        sub[1:4] = b[3:6]
+        sub[-1] = 7
+        out.append(bytes(ba))
+        return out
+
+    def s2():
+        out = []
+        with memoryview(ba) as v2:
+            v3 = v2[n:]
+            out.append((v3.nbytes, len(v3), bool(v3)))
+            out.append(bytes(v3[:2]))
+            c = v2.cast("B")
+            out.append(bytes(c[1:3]))
+        out.append(ba.find(b[3:5], 0, 8))
+        out.append(ba.find(b"\xff\xfe", 2, 6))
+        out.append(bytes(mv[n:6]))
+        out.append(mv[n:6].tobytes() == bytes(ba[n:6]))
+        return out
+
+    def s3():
+        ro = mv.toreadonly()
+        try:
+            ro[0] = 1
+            return "writable?!"
+        except TypeError:
+            return "ro"
+
+    def s4():
+        try:
+            mv[0:2] = b"abc"
+            return "no-error"
+        except ValueError:
+            return "valueerror"
+
+    def s5():
+        from easynetwork.exceptions import LimitOverrunError
+
+        e = LimitOverrunError("m", mv[:6], 2, b"\r\n")
+        e2 = LimitOverrunError("m", b + b"\r", 3, b"\r\n")
+        return bytes(e.remaining_data), bytes(e2.remaining_data)
+
+    def s6():
+        try:
+            return str(b[:n], "ascii", "strict")
+        except UnicodeError:
+            return "unicode-error"
+
+    def s7():
+        return str(mv[:2], "latin-1")
+
+    def s8():
+        from easynetwork.serializers.tools import GeneratorStreamReader
+
+        r = GeneratorStreamReader()
+        g = r.read_until(b"\n", 20, keep_end=False)
+        next(g)
+        try:
+            g.send(b[:n])
+            g.send(b[n:] + b"\nxy")
+            return "pending"
+        except StopIteration as ex:
+            return bytes(ex.value), bytes(r.read_all())
+
+    def s9():
+        from props import streamlib as L
+        from easynetwork.protocol import StreamProtocol
+
+        stream = b[:2] + b"\r\n" + b[2:5] + b"\r\n!" + b[5:] + b"\r\n" + b[:1]
+        ev, left = L.drive_copy(StreamProtocol(L.RawSep(b"\r\n", limit=12)), [stream[:n], stream[n:]])
+        return [(k, bytes(v) if k == "pkt" else v) for k, v in ev]
+
+    def s10():
+        from props import streamlib as L
+        from easynetwork.protocol import BufferedStreamProtocol
+
+        stream = b[:2] + b"\r\n" + b[2:5] + b"\r\n!" + b[5:] + b"\r\n" + b[:1]
+        ev, left, mb = L.drive_buffered(BufferedStreamProtocol(L.RawSep(b"\r\n", limit=12)), [stream[:n], stream[n:]], 3, [2, 3, 1])
+        return [(k, bytes(v) if k == "pkt" else v) for k, v in ev], bytes(left), mb
+
+    return [s1, s2, s3, s4, s5, s6, s7, s8, s9, s10]
+
+
 def battery(b: bytes, n: int):
     """b: 6 bytes, n: int in 0..6. Returns a tuple of plain python values."""
     out = []
-    ba = bytearray(8)
-    mv = memoryview(ba)
-    out.append((len(mv), mv.nbytes, mv.readonly))
-    mv[:3] = b[:3]
-    sub = mv[2:]
-    out.append((len(sub), sub.nbytes))
-    sub[1:4] = b[3:6]
-    sub[-1] = 7
-    out.append(bytes(ba))
-    with memoryview(ba) as v2:
-        v3 = v2[n:]
-        out.append((v3.nbytes, len(v3), bool(v3)))
-        out.append(bytes(v3[:2]))
-        c = v2.cast("B")
-        out.append(bytes(c[1:3]))
-    out.append(ba.find(b[3:5], 0, 8))
-    out.append(ba.find(b"\xff\xfe", 2, 6))
-    out.append(bytes(mv[n:6]))
-    out.append(mv[n:6].tobytes() == bytes(ba[n:6]))
-    ro = mv.toreadonly()
-    try:
-        ro[0] = 1
-        out.append("writable?!")
-    except TypeError:
-        out.append("ro")
-    try:
-        mv[0:2] = b"abc"
-        out.append("no-error")
-    except ValueError:
-        out.append("valueerror")
-    from easynetwork.exceptions import LimitOverrunError
-
-    e = LimitOverrunError("m", mv[:6], 2, b"\r\n")
-    out.append(bytes(e.remaining_data))
-    e = LimitOverrunError("m", b + b"\r", 3, b"\r\n")
-    out.append(bytes(e.remaining_data))
-    try:
-        out.append(str(b[:n], "ascii", "strict"))
-    except UnicodeError:
-        out.append("unicode-error")
-    out.append(str(mv[:2], "latin-1"))
-    from easynetwork.serializers.tools import GeneratorStreamReader
-
-    r = GeneratorStreamReader()
-    g = r.read_until(b"\n", 20, keep_end=False)
-    next(g)
-    try:
-        g.send(b[:n])
-        g.send(b[n:] + b"\nxy")
-        out.append("pending")
-    except StopIteration as ex:
-        out.append(bytes(ex.value))
-        out.append(bytes(r.read_all()))
-    from props import streamlib as L
-    from easynetwork.protocol import BufferedStreamProtocol, StreamProtocol
-
-    stream = b[:2] + b"\r\n" + b[2:5] + b"\r\n!" + b[5:] + b"\r\n" + b[:1]
-    ev, left = L.drive_copy(StreamProtocol(L.RawSep(b"\r\n", limit=12)), [stream[:n], stream[n:]])
-    out.append([(k, bytes(v) if k == "pkt" else v) for k, v in ev])
-    ev, left, mb = L.drive_buffered(BufferedStreamProtocol(L.RawSep(b"\r\n", limit=12)), [stream[:n], stream[n:]], 3, [2, 3, 1])
-    out.append([(k, bytes(v) if k == "pkt" else v) for k, v in ev])
-    out.append((bytes(left), mb))
+    for step in _steps(b, n):
+        try:
+            out.append(step())
+        except Exception as e:  # noqa: BLE001
+            out.append(("raised", type(e).__name__))
     return tuple(out)
 
 
